@@ -12,21 +12,26 @@ import PysamlModel.Model.Keys
 namespace Keys
 variable {ι κ : Type} [DecidableEq κ]
 
+/-- What one key descriptor publishes for signing: its certificates when `use` is `signing` or
+    absent (a descriptor without certificate publishes none). -/
+def kdBound (kd : KeyDescr κ) : List κ :=
+  match kd.use with
+  | some .encryption => []
+  | _ => kd.x509.filterMap id
+
+def entBound (ent : Entity κ) : List κ :=
+  ent.roles.flatMap (fun r => r.keys.flatMap kdBound)
+
 /-- Certificates the metadata binds to `issuer` for signing: every certificate of every key
     descriptor whose `use` is `signing` or absent, in any role descriptor of that entity.
-    (Declarative: no role order, no failure; a descriptor without certificate publishes none.) -/
+    (Declarative: no role order, no failure.) -/
 def boundKeys (md : Metadata ι κ) (issuer : Option ι) : List κ :=
   match issuer with
   | none => []
   | some i =>
     match md i with
     | none => []
-    | some ent =>
-      ent.roles.flatMap (fun r => r.keys.flatMap (fun kd =>
-        match kd.use, kd.certs with
-        | some .encryption, _ => []
-        | _, some cs => cs
-        | _, none => []))
+    | some ent => entBound ent
 
 /-- The property: where may the key that validated the signature come from.
     `onlyMd` is the policy in force (`true` for default settings). -/
@@ -68,15 +73,5 @@ def policy (cfgOnlyMd : Option Bool) : Bool :=
     demanded of a refusal (the property is an "only if"). -/
 def specAccept (cfgOnlyMd : Option Bool) (md : Metadata ι κ) (m : Msg ι κ) (accepted : Bool) : Bool :=
   !accepted || keyOriginB (policy cfgOnlyMd) md m
-
-/-- Decidable side condition of the partial theorem: no key descriptor of the issuer's entity that
-    counts for signing lacks `X509Data` (so `MetaData.certs` does not raise for this issuer). -/
-def wellKeyed (md : Metadata ι κ) (issuer : Option ι) : Bool :=
-  match issuer with
-  | none => true
-  | some i =>
-    match md i with
-    | none => true
-    | some ent => ent.roles.all (fun r => r.keys.all (fun kd => !applicable .signing kd || kd.certs.isSome))
 
 end Keys
